@@ -169,6 +169,51 @@ func NewNodeOver(name string, kp *keystore.KeyPair, st state.State, h *Handle) (
 	return n, nil
 }
 
+// NewNodeOverStorage wires a node over an arbitrary State and an arbitrary storage.Storage (the
+// real FileStorage in the conformance check). Such a node is ticked with TickPlain.
+func NewNodeOverStorage(name string, kp *keystore.KeyPair, st state.State, stg storage.Storage) (*Node, error) {
+	n, err := NewNodeOver(name, kp, st, NewBoard().NewHandle())
+	if err != nil {
+		return nil, err
+	}
+	n.cancel()
+	// rebuild with the foreign storage
+	sp := n.SP
+	sp.SetStorage(stg)
+	sp.SetFSMService(fsmservice.NewFSMService(st, stg, Topic))
+	ctx, cancel := context.WithCancel(context.Background())
+	svc, err := node.NewNode(ctx, n.Cfg, sp)
+	if err != nil {
+		cancel()
+		return nil, err
+	}
+	n.Svc, n.cancel, n.FSM, n.Handle = svc, cancel, sp.GetFSMService(), nil
+	n.Base, _ = svc.(*node.BaseNodeService)
+	return n, nil
+}
+
+// TickPlain makes the real Poll loop perform one tick over whatever the storage returns and a
+// second (barrier) tick; for nodes whose storage is not the harness board.
+func (n *Node) TickPlain() error {
+	n.StartPoll()
+	for i := 0; i < 2; i++ {
+		select {
+		case n.tick <- T0:
+		case err := <-n.pollErr:
+			n.pollErr <- err
+			return fmt.Errorf("poll loop ended: %v", err)
+		}
+	}
+	// a third tick can only be taken after the second one was handled completely
+	select {
+	case n.tick <- T0:
+	case err := <-n.pollErr:
+		n.pollErr <- err
+		return fmt.Errorf("poll loop ended: %v", err)
+	}
+	return nil
+}
+
 // NewMemNode builds a node over a fresh MemState.
 func NewMemNode(name string, b *Board) (*Node, error) {
 	return NewNodeOver(name, DetKeyPair(name), NewMemState(Topic), b.NewHandle())
